@@ -31,7 +31,8 @@ Definition chan_ok (form : cform) (upper : bool) (v : N) : bool :=
 Lemma chan_sweep :
   forallb (fun form => forallb (fun upper => sweep_pow (4 * chan_digits form) 0 (chan_ok form upper)) [true; false])
           [Rgb1; Rgb2; Rgb3; Rgb4; Hash2] = true.
-Proof. vm_compute. reflexivity. Qed.
+(* one evaluation only: the kernel checks the cast with the VM at Qed *)
+Proof. vm_cast_no_check (@eq_refl bool true). Qed.
 
 Lemma chan_bound_le form : chan_bound form <= 65536.
 Proof. destruct form; vm_compute; discriminate. Qed.
